@@ -110,7 +110,15 @@ class JobRunAdapter:
         scratch, outdir, cwd = self.dir / "scratch", self.dir / "out", self.dir / "cwd"
         cwd.mkdir(exist_ok=True)
         runner = Path(sys.executable).with_name("_molli_run")
-        p = subprocess.run([str(runner), str(ifn), "-o", str(outdir), "-s", str(scratch)], cwd=cwd, env=env,
+        # how the runner is started: absolute paths, or one of them relative to the directory it is started in
+        a_job, a_out, a_scr = str(ifn), str(outdir), str(scratch)
+        if form == "rel_out":
+            a_out = os.path.relpath(outdir, cwd)
+        elif form == "rel_scratch":
+            a_scr = os.path.relpath(scratch, cwd)
+        elif form == "rel_job":
+            a_job = os.path.relpath(ifn, cwd)
+        p = subprocess.run([str(runner), a_job, "-o", a_out, "-s", a_scr], cwd=cwd, env=env,
                            capture_output=True, text=True, timeout=120)
         res = {"exit": 0 if p.returncode == 0 else 1}
         lines = log.read_text().splitlines() if log.exists() else []
